@@ -252,16 +252,42 @@ def documented(d):
         return d["attr"] is None and all(a in (None, ["ignore"]) for a in va) and all(a is None for a in fa)
     if dv in ("Unwrap", "TryUnwrap"):
         # records cannot be unwrapped (the property ranges over unit and tuple variants): they must be ignored
-        return d["attr"] in (None, ["ref"], ["ref_mut"], ["ref", "ref_mut"]) and all(a is None for a in fa) and \
-            all(a in (None, ["ignore"], ["ref"], ["ref_mut"], ["ref", "ref_mut"]) for a in va) and \
+        return (d["attr"] is None or is_selection(d["attr"])) and all(a is None for a in fa) and \
+            all(a in (None, ["ignore"]) or (is_selection(a) and "owned" not in a) for a in va) and \
             all(v["attr"] == ["ignore"] for v in d["variants"] if v["kind"] == "named")
-    ok_e = d["attr"] is None or (len(d["attr"]) > 0 and set(d["attr"]) <= {"owned", "ref", "ref_mut"}
-                                 and len(set(d["attr"])) == len(d["attr"]))
+    ok_e = d["attr"] is None or is_selection(d["attr"])
     only_ign = all(a in (None, ["ignore"]) for a in va)
     # `#[try_into]` on the variants to derive for: documented only vaguely; taken as documented when it is the
     # only attribute in sight (with an enum-level attribute the code enables every variant again - see report)
     only_wl = all(a in (None, []) for a in va) and d["attr"] is None
-    return ok_e and (only_ign or only_wl) and all(a in (None, ["ignore"]) for a in fa)
+    # owned/ref/ref_mut on a variant: try_into.md shows the selection on the enum only, but the attribute is accepted
+    # on variants and the property ranges over per-variant selections. The oracle reads it as "the variant
+    # additionally selects these kinds", and only next to an enum-level selection (without one, any variant
+    # attribute also acts as the `#[try_into]` whitelisting mark, whose interplay is not documented).
+    vsel = d["attr"] is not None and all(a in (None, ["ignore"]) or is_selection(a) for a in va)
+    return ok_e and (only_ign or only_wl or vsel) and all(a in (None, ["ignore"]) for a in fa)
+
+
+SEL = {"owned": "owned", "ref": "ref", "ref_mut": "mut"}
+
+
+def is_selection(a):
+    """a non-empty, duplicate-free list of owned / ref / ref_mut"""
+    return a is not None and len(a) > 0 and set(a) <= set(SEL) and len(set(a)) == len(a)
+
+
+def doc_modes(d, v):
+    """reference kinds the declaration selects for variant v (enum-level selection plus the variant's own);
+    the by-value form is the documented default"""
+    modes = set()
+    for a in (d["attr"] or []) + (v["attr"] or []):
+        if a in SEL:
+            modes.add(SEL[a])
+    if d["derive"] in ("Unwrap", "TryUnwrap"):
+        modes.add("owned")            # unwrap.md / try_unwrap.md: `unwrap_foo(self)` is always generated
+    elif d["attr"] is None:
+        modes.add("owned")            # try_into.md: "If that's not provided the default is #[try_into(owned)]"
+    return modes
 
 
 def doc_ignored(d, v):
@@ -281,20 +307,13 @@ def doc_required(d):
         if dv == "IsVariant":
             req.append(("fn", i, "ref"))
         elif dv in ("Unwrap", "TryUnwrap"):
-            modes = {"owned"}
-            for a in (d["attr"] or []) + (v["attr"] or []):
-                if a == "ref":
-                    modes.add("ref")
-                if a == "ref_mut":
-                    modes.add("mut")
             for m in MODES:
-                if m in modes:
+                if m in doc_modes(d, v):
                     req.append(("fn", i, m))
         else:
-            modes = {"owned"} if d["attr"] is None else set({"owned": "owned", "ref": "ref", "ref_mut": "mut"}[a] for a in d["attr"])
             tys = tuple(f["ty"] for f in v["fields"] if f["attr"] != ["ignore"])
             for m in MODES:
-                if m in modes:
+                if m in doc_modes(d, v):
                     req.append(("impl", m, tys))
     return req
 
@@ -304,20 +323,81 @@ def expected_name(d, i, mode):
 
 
 def oracle_obs(d, acc, vi):
-    """what the property text says accessor `acc` does on a value of variant `vi` (documented declarations)"""
+    """what the property text says accessor `acc` does on a value of variant `vi` (documented declarations):
+    the list of acceptable observations (more than one only for the tolerated extra by-value conversion)"""
     dv = d["derive"]
     y = d["variants"][vi]
     if acc[0] == "fn":
         _, x, mode = acc
         if dv == "IsVariant":
-            return ("B", x == vi)
+            return [("B", x == vi)]
         if x == vi:
-            return ("R" if mode == "owned" else "A", list(range(len(y["fields"]))))
-        return ("P",) if dv == "Unwrap" else ("E", True)
+            return [("R" if mode == "owned" else "A", list(range(len(y["fields"]))))]
+        return [("P",)] if dv == "Unwrap" else [("E", True)]
     _, mode, tys = acc
+    ok = ("R" if mode == "owned" else "A", [j for j, f in enumerate(y["fields"]) if f["attr"] != ["ignore"]])
     if not doc_ignored(d, y) and tuple(f["ty"] for f in y["fields"] if f["attr"] != ["ignore"]) == tuple(tys):
-        return ("R" if mode == "owned" else "A", [j for j, f in enumerate(y["fields"]) if f["attr"] != ["ignore"]])
-    return ("E", True)
+        if mode in doc_modes(d, y):
+            return [ok]
+        if mode == "owned":
+            return [ok, ("E", True)]      # by-value conversion not selected for this variant but generated anyway
+        return [("E", True)]              # this variant did not select the reference kind
+    return [("E", True)]
+
+
+def unselected(d, real):
+    """accessors of a reference kind that no attribute selects / of variants the declaration ignores"""
+    out = []
+    if d["derive"] == "TryInto":
+        anym = set()
+        for v in d["variants"]:
+            if not doc_ignored(d, v):
+                anym |= doc_modes(d, v)
+        for a in real:
+            if a[1] != "owned" and a[1] not in anym:
+                out.append(("unselected", a))
+        return out
+    byname = {}
+    for i, v in enumerate(d["variants"]):
+        for m in MODES:
+            byname[(expected_name(d, i, m), m)] = i
+    for a in real:
+        i = byname.get((a[1], a[2]))
+        if i is None:
+            continue
+        v = d["variants"][i]
+        if doc_ignored(d, v):
+            out.append(("ignored", a))
+        elif d["derive"] != "IsVariant" and a[2] not in doc_modes(d, v):
+            out.append(("unselected", a))
+    return out
+
+
+def known_variant_ref_shape(d, missing):
+    """is every missing accessor explained by the recorded defect `variant-level-ref-attr` (a reference kind selected
+    on the variant only; or an attribute-less variant of an enum without enum-level attribute next to a variant
+    carrying a selection)?"""
+    if d["derive"] not in ("Unwrap", "TryUnwrap"):
+        return False
+    byname = {}
+    for i, v in enumerate(d["variants"]):
+        for m in MODES:
+            byname[(expected_name(d, i, m), m)] = i
+    sel_somewhere = any(v["attr"] and "ignore" not in v["attr"] for v in d["variants"])
+    for k in missing:
+        i = byname.get((k[1], k[2]))
+        if i is None:
+            return False
+        v = d["variants"][i]
+        enum_modes = set(SEL[a] for a in (d["attr"] or []) if a in SEL)
+        only_on_variant = k[2] != "owned" and k[2] not in enum_modes and SEL_INV[k[2]] in (v["attr"] or [])
+        whitelisted_out = v["attr"] is None and d["attr"] is None and sel_somewhere
+        if not (only_on_variant or whitelisted_out):
+            return False
+    return True
+
+
+SEL_INV = {"owned": "owned", "ref": "ref", "mut": "ref_mut"}
 
 
 # ------------------------------------------------------------------ the real expansion (in-process harness)
@@ -892,10 +972,21 @@ def run(tier, seed, replay):
                     chk.violation("accessor-name", {"decl": d, "source": src, "unexpected": odd, "real": sorted(have)},
                                   "method names %s are not prefix + snake_case(variant) + suffix for %s" % (odd, src.replace("\n", " ")))
                 if missing:
-                    cls = "variant-level-ref-attr" if has_variant_ref(d) else "accessor-missing:" + d["derive"]
+                    if d["derive"] == "TryInto":
+                        cls = "try-into-impl-missing"
+                    elif has_variant_ref(d) and known_variant_ref_shape(d, missing):
+                        cls = "variant-level-ref-attr"
+                    else:
+                        cls = "accessor-missing:" + d["derive"]
                     chk.violation(cls, {"decl": d, "source": src, "missing": missing, "real": sorted(have)},
                                   "documented accessors %s are not generated for %s (generated: %s)" %
                                   (missing, src.replace("\n", " "), sorted(have)))
+                for why, a in unselected(d, real[1]):
+                    cls = {"ignored": "accessor-for-ignored-variant:", "unselected": "accessor-unselected:"}[why] + d["derive"]
+                    chk.violation(cls, {"decl": d, "source": src, "accessor": a, "real": sorted(have)},
+                                  "%s is generated for %s although %s" %
+                                  (a, src.replace("\n", " "), "the variant is ignored" if why == "ignored"
+                                   else "no attribute selects this reference kind for it"))
         if d["id"] < len(decls):
             if real[0] == "ok" and real[1]:
                 rt_cases.append((d, real[1]))
@@ -992,13 +1083,13 @@ def run(tier, seed, replay):
                 # oracle: the property text (documented declarations)
                 if doc:
                     oacc = ("fn", x, acc[2]) if acc[0] == "fn" else acc
-                    want = oracle_obs(d, oacc, vi)
-                    got = o[:len(want)] if want[0] in ("P", "E") else o
-                    if tuple(got) != tuple(want):
+                    wants = oracle_obs(d, oacc, vi)
+                    if not any(tuple(o[:len(w)] if w[0] in ("P", "E") else o) == tuple(w) for w in wants):
+                        want = wants[0]
                         chk.violation("table:%s:%s" % (d["derive"], want[0] + "-" + o[0]),
-                                      {"decl": d, "source": src, "accessor": key, "value_variant": v["name"], "expected": want, "observed": o},
+                                      {"decl": d, "source": src, "accessor": key, "value_variant": v["name"], "expected": wants, "observed": o},
                                       "%s applied to a `%s` value of %s: expected %s, observed %s" %
-                                      (key, v["name"], src.replace("\n", " "), want, o))
+                                      (key, v["name"], src.replace("\n", " "), wants, o))
                 if len(chk.cov["samples"]) < 12 and vi == 0 and ai == 0:
                     chk.sample({"enum": src, "accessor": key, "value": v["name"], "observed": o})
     chk.bump("runtime_pairs", n_pairs)
